@@ -307,6 +307,7 @@ impl Check for C19 {
                     });
                 }
                 // streams the server opens for the session
+                let mut keep_bi = vec![];
                 for (j, p) in open_payloads.iter().enumerate() {
                     let uni = j < n_open_uni;
                     if uni {
@@ -333,14 +334,15 @@ impl Check for C19 {
                                     ok = poll_fn(|cx| s.poll_send(cx, &mut buf)).await.is_ok();
                                 }
                                 rec.borrow_mut().opened.push((false, id, p.clone()));
-                                // keep the handle so that a drop does not end the stream
-                                std::mem::forget(s);
+                                // keep the handle until the run is over so that a drop does not end the stream
+                                keep_bi.push(s);
                             }
                             Err(e) => rec.borrow_mut().open_errs.push(format!("open_bi: {e}")),
                         }
                     }
                 }
                 std::future::pending::<()>().await;
+                drop(keep_bi);
                 drop(session);
             });
         }
